@@ -71,7 +71,8 @@ func nextHeightGuard(gcbh *types.Func) eng.NamedGuard {
 }
 
 func runC13(c *core.Ctx) {
-	gcbh := eng.Obj(c, pkLedger, "LedgerStoreImp.GetCurrentBlockHeight")
+	checkHeightUnderLock(c)
+	gcbh :=eng.Obj(c, pkLedger, "LedgerStoreImp.GetCurrentBlockHeight")
 	vh := eng.Obj(c, pkLedger, "LedgerStoreImp.verifyHeader")
 	if gcbh == nil || vh == nil {
 		return
